@@ -141,10 +141,15 @@ def eval_spaces(prop, tier):
             sig(s + ";ep=none", 8)
         sig("KQQQk;files=5", 8)
         # same pawn structure x every placement of the other pieces (pawns first = outer loops)
-        for s in (["PpKkn;files=5;ep=none", "PPKkn;files=4;ep=none", "PpKNk;files=5;ep=none", "ppkKN;files=4;ep=none"] if q else
+        for s in (["PpKkn;files=4;ep=none", "PPKkn;files=4;ep=none"] if q else
                   ["PpKkn;ep=none", "PPKkn;files=6;ep=none", "PpKNk;ep=none", "ppkKN;files=6;ep=none", "PPpKkn;files=4;ep=none", "PpKkb;files=6;ep=none", "PpKkr;files=6;ep=none", "PPpKRkn;files=3;ep=none"]):
             for i in range(8):
                 jobs.append(["pawngroup|%s;shard=%d/8" % (s, i)])
+        # kings fixed in far corners, pawns outermost: cached vs always-missed pawn term
+        for s in (["PPnKa1kh8", "ppNKa1kh8", "PpnKa1kh8", "PPrKa1kh8"] if q else
+                  ["PPnKa1kh8", "ppNKa1kh8", "PpnKa1kh8", "PpNKa1kh8", "PPrKa1kh8", "PPbKa1kh8", "PPqKa1kh8", "ppRKa1kh8", "ppBKa1kh8", "PPPnKa1kh8;files=5", "PPnnKa1kh8;files=5"]):
+            for i in range(16):
+                jobs.append(["pawnpure|%s;ep=none;stm=w;shard=%d/16" % (s, i)])
         # extreme material (bare king v eight/nine queens and two rooks, both colours): bounds
         extreme = ["7k/8/8/8/8/RRK5/QQQQ4/QQQQ4 w - - 0 1", "7k/8/8/8/8/RRK5/QQQQ4/QQQQQ3 w - - 0 1",
                    "qqqq4/qqqq4/rrk5/8/8/8/8/7K b - - 0 1", "qqqqq3/qqqq4/rrk5/8/8/8/8/7K b - - 0 1",
@@ -177,7 +182,7 @@ def run_eval(prop, tier):
                 "compared with the same call on a fresh evaluator; bounds: |score| < win_in(MAX_DEPTH) for every evaluation of the listed spaces")
         assumptions = ["the colliding alphabet is found by exhaustive search over pawn structures against this process's random keys",
                        "a fresh PositionScorer is the reference for purity"]
-        guards = [("structures_searched", 1000), ("evaluations", 100000), ("pawn_groups", 1000)]
+        guards = [("structures_searched", 1000), ("evaluations", 100000), ("pawn_groups", 500), ("cleared_evaluations", 10000)]
     return driver.finish(prop, tier, MC, merged, t0, rule=rule, assumptions=assumptions, guards=guards, replay_fn=replay_eval,
                          technique="exhaustive enumeration of positions / operation sequences on the real evaluator with a differential oracle")
 
@@ -194,7 +199,7 @@ def replay_eval(rec, verbose=False):
         res = json.load(open(out))
         os.unlink(out)
         return any(k.startswith("C13:asymmetric") for k in res["violation_classes"])
-    if "group_first" in d:
+    if "group_first" in d or "score_long_lived" in d:
         return None   # replayed by re-running the group's (cheap) sub-space
     if "fen" not in d:
         return None   # purity sequences depend on per-process keys; replayed by re-running the (cheap) sub-space
